@@ -9,7 +9,7 @@ Extraction "oracle.ml" table_provider mkU mkSol mkVs mkPkg mkProblem
   o_valid o_supported o_solvable o_greedy o_explicit_first o_soft_expect
   mkLog mkCl check_db check_run check_sat_log check_sat_log_lenient check_unsat_log facts_ok learnts_ok wf_universeb
   factb db_idx learnt_okb rup
-  causalb onceb exactb eagerb cancel_quietb
+  causalb onceb exactb exact_nextb eagerb cancel_quietb
   mkGraph truthfulb reachableb refutesb check_core check_graph_build build_graph core_clauses
   check_encoder check_encoder_final check_encoder_from check_encoder_final_from cache_after enc_run fifo_ok quiet_ok assert_ok estate0 cache0
   check_analyses.
